@@ -74,11 +74,18 @@ type rewardExpect struct {
 
 // expectReward computes, from the pre-state read through queries, what the
 // statement of C03 requires of the reward block at height h.
+// netWindows maps file key -> the network's ProofWindow when the file was posted (the file's proof window by the
+// statement, whatever interval the client asked for in MsgPostFile); files unknown to the map use their record.
+var netWindows map[string]int64
+
 func expectReward(pre *StorageObs, h int64) (*rewardExpect, []string) {
 	ex := &rewardExpect{Counted: map[string]*big.Int{}, Removed: map[string]bool{}, BurnDiff: map[string]int64{}, Dpre: new(big.Int)}
 	var incons []string
 	for _, f := range pre.Files {
 		W := f.ProofInterval
+		if nw, ok := netWindows[fileKey(f)]; ok && nw > 0 {
+			W = nw
+		}
 		ex.Dpre.Add(ex.Dpre, new(big.Int).Mul(big.NewInt(f.FileSize), big.NewInt(int64(len(f.Proofs)))))
 		pat := ""
 		for _, pk := range f.Proofs {
